@@ -200,6 +200,7 @@ def run(ctx: Ctx, driver: Driver):
     else:
         ctx.notes.append("driver unavailable")
     resume_grid(ctx, rng)
+    ip_http_grid(ctx, rng)
     pairings(ctx, driver, rng)
 
 
@@ -281,6 +282,126 @@ class _Anything:
 
     def __getitem__(self, k):
         return _Anything()
+
+
+def ip_http_grid(ctx: Ctx, rng):
+    """the same error replies as they travel over IP: through the real HTTP parser, HomeKitConnection.request and post_tlv,
+    with every HTTP status x Content-Type spelling an accessory may use for them.  A reply's TLV body decides the outcome,
+    whatever the status line and the headers say."""
+    from cryptography.hazmat.primitives.asymmetric import x25519
+    from harness import simnet
+    from aiohomekit.controller.ip.connection import HomeKitConnection
+    loop = simnet.VLoop()
+    asyncio.set_event_loop(loop)
+    rb = lambda n: bytes(rng.randrange(256) for _ in range(n))  # noqa: E731
+    ltpk = ed25519.Ed25519PrivateKey.generate().public_key().public_bytes(**refacc.RAW).hex()
+    statuses = [(200, "OK"), (400, "Bad Request"), (405, "Method Not Allowed"), (429, "Too Many Requests"), (470, "Connection Authorization Required")]
+    ctypes = ["application/pairing+tlv8", None, "application/hap+json", "Application/Pairing+TLV8", "application/pairing+tlv8; charset=utf-8", "text/html"]
+    n = 0
+
+    async def noop(*a, **k):
+        return None
+
+    async def cell(op, code, status, ctv):
+        net = simnet.Net(loop)
+        replies = []
+
+        def handler(t, data):
+            if not replies:
+                return
+            body = replies.pop(0)
+            head = f"HTTP/1.1 {status[0]} {status[1]}\r\n" + (f"Content-Type: {ctv}\r\n" if ctv else "") + f"Content-Length: {len(body)}\r\n\r\n"
+            loop.call_soon(t.feed, head.encode() + body)
+        net.handler = handler
+        with net.patched():
+            conn = HomeKitConnection(None, ["10.0.0.1"], 80)
+            await conn.ensure_connection()
+            net.connect_outcomes = ["refused"] * 10000
+            try:
+                if op in ("add", "rm"):
+                    p = IpPairing.__new__(IpPairing)
+                    p.connection = conn
+                    p._ensure_connected = noop
+                    p._shutdown_if_primary_pairing_removed = noop
+                    replies.append(refacc.tlv([(6, b"\x02"), (7, code)]))
+                    r = await (p.add_pairing("other-ctl", ltpk, "User") if op == "add" else p.remove_pairing("other-ctl"))
+                    return f"ok {r}"
+                # pair-verify driven exactly as SecureHomeKitConnection._connect_once does
+                ident = refacc.Identity(rb)
+                eph = rb(32)
+                acc = refacc.VerifyAccessory(ident, rb(32))
+                with mock.patch.object(P.x25519.X25519PrivateKey, "generate", staticmethod(lambda: x25519.X25519PrivateKey.from_private_bytes(eph))):
+                    sm = P.get_session_keys(ident.pairing_data())
+                    request, expected = sm.send(None)
+                ios_pk = x25519.X25519PrivateKey.from_private_bytes(eph).public_key().public_bytes(**refacc.RAW)
+                if op == "verifyM2":
+                    replies.append(refacc.tlv([(6, b"\x02"), (7, code)]))
+                else:
+                    # M2 is genuine and travels as an ordinary 200 reply; only the M4 error uses the status/headers under test
+                    replies.append(None)
+                m2_body = refacc.tlv(acc.m2(ios_pk))
+                step = 0
+                while True:
+                    step += 1
+                    if op == "verifyM4" and step == 1:
+                        replies[0] = m2_body
+                        saved = (status, ctv)
+                        # first reply: plain 200 with the proper content type
+                        body = replies.pop(0)
+                        async def first(body=body):
+                            return body
+                        # temporarily answer with 200/tlv8
+                        def h200(t, data, body=body):
+                            loop.call_soon(t.feed, (f"HTTP/1.1 200 OK\r\nContent-Type: application/pairing+tlv8\r\nContent-Length: {len(body)}\r\n\r\n").encode() + body)
+                        net.handler = h200
+                        response = await conn.post_tlv("/pair-verify", body=request, expected=expected)
+                        net.handler = handler
+                        replies.append(refacc.tlv([(6, b"\x04"), (7, code)]))
+                    else:
+                        response = await conn.post_tlv("/pair-verify", body=request, expected=expected)
+                    try:
+                        request, expected = sm.send(response)
+                    except StopIteration:
+                        return "ok keys"
+            finally:
+                try:
+                    await conn.close()
+                except Exception:  # noqa: BLE001
+                    pass
+
+    for op in ("add", "rm", "verifyM2", "verifyM4"):
+        for code in (b"\x02", b"\x06", b"\x07", b"\x01"):
+            for status in statuses:
+                for ctv in ctypes:
+                    try:
+                        out = loop.run_until_complete(cell(op, code, status, ctv))
+                    except E.HomeKitException as e:
+                        out = "err " + type(e).__name__
+                    except Exception as e:  # noqa: BLE001
+                        out = "exc " + type(e).__name__
+                    pend = [t for t in asyncio.all_tasks(loop) if not t.done()]
+                    for t in pend:
+                        t.cancel()
+                    if pend:
+                        loop.run_until_complete(asyncio.gather(*pend, return_exceptions=True))
+                    ctx.evaluations += 1
+                    n += 1
+                    ctx.nontrivial.add(("ip-http", op, code, status[0], ctv))
+                    ctx.dist[f"ip-http:{op}:{out}"] += 1
+                    case = {"stream": "ip-http", "op": op, "code": hx(code), "status": status[0], "content_type": ctv}
+                    want = "library-error" if op == "rm" else "err " + DOC.get(bytes(code), "InvalidError")
+                    bad = None
+                    if out.startswith("exc"):
+                        bad = f"raised non-library {out.split()[1]}"
+                    elif want == "library-error" and not out.startswith("err"):
+                        bad = f"-> {out} although the accessory answered with error code {hx(code)}"
+                    elif want.startswith("err") and want != "library-error" and out != want:
+                        bad = f"-> {out}, documented outcome is {want}"
+                    if bad:
+                        ctx.violation(f"ip-http/{op}/error-code", f"{op} over HTTP {status[0]} with Content-Type {ctv!r}: error reply {bad}", case)
+    asyncio.set_event_loop(None)
+    loop.close()
+    ctx.notes.append(f"IP HTTP layer: {n} cells (operation x error code x HTTP status x Content-Type spelling) through the real parser, request() and post_tlv()")
 
 
 def pairings(ctx: Ctx, driver: Driver, rng):
